@@ -14,6 +14,7 @@ interleaving and every fault script (a history is the list of steps in the order
 Two facts it depends on are extracted from non_blocking.rs / worker.rs on every run.
 -/
 import TracingModel.Core.NonBlocking
+import TracingModel.Lemmas.AtomicCount
 
 namespace C15
 open TM.NonBlocking TM.Gen.NonBlockingFacts
@@ -556,5 +557,22 @@ theorem drain_on_drop (cap : Nat) (lossy : Bool) (ops : List Op)
   · have := (hT.saw (hT.term (Or.inr (Or.inl hw)))).2
     omega
   · rw [hcur, hlen, ← hI.fifo]; simp
+
+/-! ### the dropped-lines counter under concurrent producers -/
+
+/-- **C15.drop_counter_exact** — producers on any number of threads that fail to enqueue at the same moment: the counter is bumped
+by a compare-exchange loop that retries until it wins (`dropCounterRetries`, from non_blocking.rs on every run), one linearizable
+increment per failed line; under EVERY interleaving the counter equals its old value plus the number of increments that have
+finished — no dropped line goes uncounted (`written + dropped = offered` needs exactly this) -/
+theorem drop_counter_exact (c0 : Nat) (ths : List Nat) (hnd : ths.Nodup) (sched : List Nat) (hs : ∀ t ∈ sched, t ∈ ths) :
+    let s := TM.AtomicCount.run TM.Gen.NonBlockingFacts.dropCounterRetries true (fun _ => .inc) (TM.AtomicCount.start c0) sched
+    s.c = c0 + TM.AtomicCount.finished s ths := by
+  have h : TM.Gen.NonBlockingFacts.dropCounterRetries = true := by decide
+  rw [h]
+  exact TM.AtomicCount.increments_exact c0 ths hnd (fun _ => .inc) (fun _ => rfl) sched hs
+
+/-- with a single compare-exchange whose failure is ignored (read, then try once) two producers failing together count one line -/
+theorem drop_counter_lost_witness :
+    (TM.AtomicCount.run false true (fun _ => .inc) (TM.AtomicCount.start 0) [0, 1, 0, 1]).c = 1 := TM.AtomicCount.lost_increment_witness
 
 end C15
